@@ -61,3 +61,14 @@ Proof.
   destruct mx; reflexivity.
 Qed.
 
+
+Corollary wta_loop_is_skeleton_at : forall mx sk nr nc disps invalid cv conf mask ny nx env0 r c,
+  wta_skeleton_ok mx sk = true -> 0 <= nr -> 0 <= nc ->
+  o_disp (to_disp mx (sk_B sk) nr nc disps invalid cv conf mask) r c
+  = if forallb (fun b : bool => b) (map is_nan (cv r c)) then invalid
+    else Some (snd (exec (wta_kernel disps cv) 0 nr nc (sk_target 0 sk) sk ny nx (env0, fun _ _ => 0%Q)) r c).
+Proof.
+  intros mx sk nr nc disps invalid cv conf mask ny nx env0 r c Hok Hnr Hnc.
+  destruct (wta_skeleton_ok_parts mx sk Hok) as (_ & _ & _ & w & Hw & _).
+  unfold sk_target. rewrite Hw. cbn [nth_error]. apply wta_loop_is_skeleton; assumption.
+Qed.
